@@ -273,6 +273,7 @@ def run(seed=0, rounds=3):
             sol.add(f_ + [kneg == kk] + [z3.Not(z3.And(_all_equal(row, x[-kk])))])
             if sol.check() != z3.unsat:
                 bad.append("symbolic negative index: x[-k] at k = %d differs from torch" % kk)
+        structural("isneginf", lambda I, a, c: F["torch.isneginf"](I, M["masked_fill"](I, a, c, -float("inf"))), lambda a, c: torch.isneginf(a.masked_fill(c, -float("inf"))), [(x, "float"), (b, "bool")])
         structural("isfinite", lambda I, a, c: F["torch.isfinite"](I, M["masked_fill"](I, a, c, -float("inf"))), lambda a, c: torch.isfinite(a.masked_fill(c, -float("inf"))), [(x, "float"), (b, "bool")])
         structural("zeros_like", lambda I, a: F["torch.zeros_like"](I, a), lambda a: torch.zeros_like(a), F_)
         structural("min of one element + item", lambda I, a: M["expand"](I, stn.ST((), lambda: M["item"](I, M["min"](I, a.__vc_getitem__(I, (0, 0)))), "float"), 2), lambda a: a[0, 0].min().expand(2), F_)
